@@ -663,3 +663,6 @@ def run(ctx, rep):
     # LspProject::semantic keeps a diagnostic only if one of its labels names the published file: spans must not lose their file id
     from rules.c05 import rule_join
     rule_join(ctx, rep, rid="R-C11-join")
+    # ... and the range it publishes for that file is the range of a label that is in that file
+    from rules.c05 import rule_doclabel
+    rule_doclabel(ctx, rep, rid="R-C11-doclabel")
